@@ -106,6 +106,24 @@ func scenariosFor(prop string) []scn {
 		both(flowParams{Sources: 1, Records: 3, Batch: 1, Dests: 2, AckMenu: onlyOK, Procs: []procParam{{ID: "pp", Workers: 1, Kinds: []string{"p", "f", "p"}}}}, 1, 3)
 	case "C01", "C02", "C03", "C04", "C05", "C07":
 		data()
+	case "C20":
+		// every fatal cause the engines know, each through the different paths an error can take to the lifecycle service
+		// (destination acker, processor node, parallel processor node, fan-out siblings): the fatal mark must survive
+		// every wrapper on the way, i.e. the pipeline degrades instead of recovering
+		both(flowParams{Sources: 1, Records: 2, Batch: 1, Dests: 1, AckMenu: okNack, DLQMenu: okNack, Retries: 1}, 2, 3)
+		both(flowParams{Sources: 1, Records: 2, Batch: 1, Dests: 1, AckMenu: okNack, DLQMenu: []string{"ok", "err"}, Retries: 2}, 2, 3)
+		both(flowParams{Sources: 1, Records: 3, Batch: 1, Dests: 1, AckMenu: okNack, Window: 2, Thresh: 1, Retries: 1}, 2, 3)
+		both(flowParams{Sources: 1, Records: 2, Batch: 1, Dests: 2, AckMenu: okNack, Window: 2, Thresh: 1, Retries: 1}, 2, 3)
+		both(flowParams{Sources: 1, Records: 2, Batch: 1, Dests: 2, AckMenu: okNack, DLQMenu: okNack, Retries: 1}, 2, 3)
+		both(flowParams{Sources: 1, Records: 2, Batch: 1, Dests: 1, AckMenu: onlyOK, Window: 1, Thresh: 0, Procs: []procParam{{ID: "pp", Kinds: []string{"p", "e"}}}, Retries: 2}, 1, 2)
+		both(flowParams{Sources: 1, Records: 2, Batch: 1, Dests: 1, AckMenu: onlyOK, Window: 1, Thresh: 0, Procs: []procParam{{ID: "pp", Workers: 2, Kinds: []string{"p", "e"}}}, Retries: 2}, 1, 2)
+		both(flowParams{Sources: 1, Records: 2, Batch: 1, Dests: 1, AckMenu: onlyOK, Window: 2, Thresh: 1, Procs: []procParam{{ID: "pp", Kinds: []string{"e", "e"}}}, Retries: 2}, 1, 2)
+	case "C17":
+		// a pipeline that runs when the server shuts down gracefully - also when its drain hits a transient error - is
+		// stored in the status the next server start resumes (SystemStopped)
+		both(flowParams{Sources: 1, Records: 2, Batch: 1, Dests: 1, AckMenu: onlyOK, Stop: "stopall"}, 2, 3)
+		both(flowParams{Sources: 1, Records: 2, Batch: 1, Dests: 1, AckMenu: []string{"ok", "err"}, ReadMenu: []string{"ok", "err"}, Stop: "stopall", Retries: 2}, 2, 3)
+		both(flowParams{Sources: 2, Records: 1, Batch: 1, Dests: 2, AckMenu: []string{"ok", "err"}, Stop: "stopall", Retries: 1}, 1, 2)
 	case "C12":
 		for _, blocked := range [][]string{nil, {"d1"}, {"dlq"}, {"d0", "d1"}} {
 			both(flowParams{Sources: 1, Records: 2, Batch: 1, Dests: 2, AckMenu: okNack, Stop: "force", Blocked: blocked}, 2, 3)
